@@ -292,6 +292,11 @@ def voiceFrame (v center : Bits) : Bits := v.take 108 ++ (center ++ v.drop 108)
 /-- the 48-bit centre of a voice burst with embedded signalling `e16` around 32 embedded bits -/
 def embCenter (e16 e32 : Bits) : Bits := e16.take 8 ++ (e32 ++ e16.drop 8)
 
+/-- payload content that is itself a valid object of another kind (hardening after seeded change C01-G):
+the voice burst whose 216 vocoder bits are the two halves of the 264-bit burst `x` — everything but
+its 48-bit centre, i.e. payload and slot type positions as they stand — around `center` -/
+def transplant (x center : Bits) : Bits := voiceFrame (x.take 108 ++ x.drop 156) center
+
 end Burst
 
 /-! ## the other entry points that yield a burst object (`Burst.from_mmdvm`, `Burst.from_hytera_ipsc`)
